@@ -13,10 +13,10 @@ package main
 // reported; nothing is assumed about run-time values.
 
 import (
-	"os"
 	"fmt"
 	"go/token"
 	"go/types"
+	"os"
 	"sort"
 	"strings"
 
@@ -47,7 +47,7 @@ func (t lterm) add(o lterm, k int64) lterm {
 	return r
 }
 func (t lterm) scale(k int64) lterm { return tConst(0).add(t, k) }
-func (t lterm) isConst() bool     { return 0 == len(t.co) }
+func (t lterm) isConst() bool       { return 0 == len(t.co) }
 func (t lterm) String() string {
 	var ps []string
 	for a, v := range t.co {
@@ -69,12 +69,14 @@ type bound struct {
 
 // ifacts is a set of facts valid at one program point (or on one edge).
 type ifacts struct {
-	ge   []lterm                    /* each term ≥ 0 */
-	cong map[ssa.Value][2]int64     /* atom ≡ r (mod m) */
-	sub  map[ssa.Value]ssa.Value    /* phi → chosen edge value (case split) */
+	ge   []lterm                 /* each term ≥ 0 */
+	cong map[ssa.Value][2]int64  /* atom ≡ r (mod m) */
+	sub  map[ssa.Value]ssa.Value /* phi → chosen edge value (case split) */
 }
 
-func newFacts() *ifacts { return &ifacts{cong: map[ssa.Value][2]int64{}, sub: map[ssa.Value]ssa.Value{}} }
+func newFacts() *ifacts {
+	return &ifacts{cong: map[ssa.Value][2]int64{}, sub: map[ssa.Value]ssa.Value{}}
+}
 func (f *ifacts) clone() *ifacts {
 	n := newFacts()
 	n.ge = append(n.ge, f.ge...)
@@ -95,6 +97,7 @@ type idxProver struct {
 	cellTry map[*ssa.Alloc]bool
 	chunkEq map[*ssa.Function]int64 /* yield closure → exact chunk length, when provable */
 	depth   int
+	inNorm  map[ssa.Value]bool
 }
 
 // cellOfAddr resolves an address to the Alloc it denotes (through free vars).
@@ -152,8 +155,19 @@ func loadRep(l *ssa.UnOp) ssa.Value {
 
 // norm normalises an integer value.
 func (ip *idxProver) norm(v ssa.Value, f *ifacts) lterm {
-	if s, ok := f.sub[v]; ok {
-		return ip.norm(s, f)
+	/* A phi substituted by an edge value which itself mentions the phi
+	(i := i + 1 on a back edge) would recurse for ever: the inner
+	occurrence stays an atom. */
+	if nil == ip.inNorm {
+		ip.inNorm = map[ssa.Value]bool{}
+	}
+	if ip.inNorm[v] {
+		return tAtom(v)
+	}
+	ip.inNorm[v] = true
+	defer delete(ip.inNorm, v)
+	if w := f.subst(v); w != v {
+		return ip.norm(w, f)
 	}
 	switch x := v.(type) {
 	case *ssa.Const:
@@ -200,9 +214,7 @@ func (ip *idxProver) norm(v ssa.Value, f *ifacts) lterm {
 
 // lenOf returns the term for len(x).
 func (ip *idxProver) lenOf(x ssa.Value, f *ifacts) lterm {
-	if s, ok := f.sub[x]; ok {
-		return ip.lenOf(s, f)
-	}
+	x = f.subst(x)
 	switch y := x.(type) {
 	case *ssa.Const:
 		return tConst(0)
@@ -793,3 +805,18 @@ func (ip *idxProver) establishChunkLengths(fns []*ssa.Function) {
 }
 
 var idxDebug = "" != os.Getenv("IDXDEBUG")
+
+// subst follows the substitution chain of v; a cyclic chain (a=b and b=a
+// learnt on different edges) ends at the value where the cycle closes.
+func (f *ifacts) subst(v ssa.Value) ssa.Value {
+	seen := map[ssa.Value]bool{}
+	for k := 0; k < 64; k++ {
+		s, ok := f.sub[v]
+		if !ok || seen[s] || s == v {
+			return v
+		}
+		seen[v] = true
+		v = s
+	}
+	return v
+}
